@@ -2176,11 +2176,17 @@ def _pack_layout(layout):
         new_index[is_none] = -1
         new_index[~is_none] = nplike.arange(len(new_index) - nplike.sum(is_none))
 
+        parameters = layout.parameters
+        if parameters.get("__array__") == "categorical":
+            # the projected content repeats categories: it is no longer categorical
+            parameters = dict(parameters)
+            del parameters["__array__"]
+
         return ak.layout.IndexedOptionArray64(
             ak.layout.Index64(new_index),
             layout.project(),
             layout.identities,
-            layout.parameters,
+            parameters,
         )
 
     # Project indexed arrays
